@@ -651,6 +651,26 @@ func ConcatFunction(env *Zlisp, name string, args []Sexp) (Sexp, error) {
 		default:
 			return ConcatLists(t, args[1:])
 		}
+	case *SexpSentinel:
+		if t == SexpNull {
+			// nil is the empty list: the result is the concatenation of the
+			// remaining lists.
+			for i, x := range args[1:] {
+				switch y := x.(type) {
+				case *SexpPair:
+					if i+2 == len(args) {
+						return y, nil
+					}
+					return ConcatLists(y, args[i+2:])
+				case *SexpSentinel:
+					if y == SexpNull {
+						continue
+					}
+				}
+				return SexpNull, NotAList
+			}
+			return SexpNull, nil
+		}
 	}
 
 	return SexpNull, fmt.Errorf("expected strings, lists or arrays")
@@ -944,6 +964,11 @@ func ApplyFunction(env *Zlisp, name string, args []Sexp) (Sexp, error) {
 		if err != nil {
 			return SexpNull, err
 		}
+	case *SexpSentinel:
+		if e != SexpNull {
+			return SexpNull, fmt.Errorf("second argument must be array or list")
+		}
+		// nil is the empty list: the function is called without arguments
 	default:
 		return SexpNull, fmt.Errorf("second argument must be array or list")
 	}
@@ -972,9 +997,13 @@ func MapFunction(env *Zlisp, name string, args []Sexp) (Sexp, error) {
 	case *SexpPair:
 		x, err := MapList(env, fun, e)
 		return x, err
-	default:
-		return SexpNull, fmt.Errorf("second argument must be array or list; we saw %T / val = %s", e, e.SexpString(nil))
+	case *SexpSentinel:
+		if e == SexpNull {
+			// nil is the empty list: there is nothing to apply the function to
+			return SexpNull, nil
+		}
 	}
+	return SexpNull, fmt.Errorf("second argument must be array or list; we saw %T / val = %s", args[1], args[1].SexpString(nil))
 }
 
 func MakeArrayFunction(env *Zlisp, name string, args []Sexp) (Sexp, error) {
